@@ -61,6 +61,9 @@ class Point(tuple[int | None, int | None]):
 
     def __neg__(self) -> Point:
         """Unary negation"""
+        if self[1] is None:
+            # the point at infinity is its own inverse
+            return self
         return self.__class__(self[0], self._curve.p() - self[1], self._curve)  # type: ignore[operator]
 
     def curve(self) -> Curve:
